@@ -25,6 +25,7 @@ type CaseC17 struct {
 	// call; MainFirst lists the main voxel before them, otherwise after them
 	Others    [][2]int64 `json:",omitempty"`
 	MainFirst bool       `json:",omitempty"`
+	Reuse     int64      `json:",omitempty"` // backward: the pair object is a re-used object filled through its setters
 }
 
 func genRange(t *rapid.T) (float64, float64) {
@@ -138,6 +139,7 @@ func genC17(t *rapid.T) *CaseC17 {
 	for c.OutV > 0 && c17Run(c) > 4096 {
 		c.OutV--
 	}
+	c.Reuse = genReuse(t)
 	return c
 }
 
@@ -440,7 +442,7 @@ func checkC17(c *CaseC17, fl *Fails) {
 		return
 	}
 	// backward
-	q := object.NewQuadkeyAndVerticalID(6, 2914, c.Z, c.K, mx, mn)
+	q := mkQK(c.Reuse, 6, 2914, c.Z, c.K, mx, mn)
 	ids, err := transform.ConvertQuadkeysAndVerticalIDsToExtendedSpatialIDs([]*object.QuadkeyAndVerticalID{q}, 6, c.OutV)
 	qr := object.NewQuadkeyAndVerticalID(6, 2914, c.Z, c.K, mn, mx)
 	if _, errRev := transform.ConvertQuadkeysAndVerticalIDsToExtendedSpatialIDs([]*object.QuadkeyAndVerticalID{qr}, 6, c.OutV); errRev == nil {
